@@ -298,3 +298,31 @@ def r18_e(ctx):
                             'the owning %s does not print its argument list through the list\'s serialiser' % cname,
                             line=sfd.node.lineno))
     return rr
+
+
+def r18_f(ctx):
+    """positional operations act on the list proper by position, never through an equality search"""
+    cls = _cls(ctx)
+    shadow = _shadow_field(cls)
+    rr = RuleResult('R18.f', 'pop and insert change the list proper at the requested position (list.pop / list.insert on '
+                    'the index), not through remove/index by equality: groups with the same text compare equal, so an '
+                    'equality search would hit the first twin', floor=2)
+    for op in ('pop', 'insert'):
+        fds = cls.methods.get(op)
+        if not fds:
+            continue
+        fd = fds[-1]
+        ip = fd.params()[1] if len(fd.params()) > 1 else None
+        positional = [n for n in ast.walk(fd.node) if _is_super_call(n, {op}) and n.args and
+                      any(isinstance(x, ast.Name) and x.id == ip for x in ast.walk(n.args[0]))]
+        by_eq = [n for n in ast.walk(fd.node) if isinstance(n, ast.Call) and isinstance(n.func, ast.Attribute)
+                 and n.func.attr in ('remove', 'index') and (norm(n.func.value) == 'self' or _is_super_call(n))]
+        ok = bool(positional) and not by_eq
+        rr.ob(ok, {'operation': op, 'positional_write': [norm(x)[:40] for x in positional], 'equality_search_on_list': [norm(x)[:40] for x in by_eq]})
+        if not ok:
+            node = by_eq[0] if by_eq else fd.node.name
+            rr.fail(Finding('R18.f', 'data', fd.qual, node, 'TexArgs.%s does not change the list proper by position (%s): with '
+                            'two groups of identical text the first one is affected instead of the one at the index'
+                            % (op, 'it goes through %s' % norm(by_eq[0])[:40] if by_eq else 'no list.%s on the index' % op),
+                            line=fd.node.lineno))
+    return rr
